@@ -181,3 +181,29 @@ def dy(d):
     except OverflowError:
         import fractions
         return float(d["s"] * fractions.Fraction(m) * fractions.Fraction(2) ** (15 * d["q"]))
+
+
+def dyadic_of(x):
+    """exact Dyadic.tla record of a Python float"""
+    import math
+    import struct
+    bits = struct.unpack("<Q", struct.pack("<d", x))[0]
+    b = [bits & 0xffff, (bits >> 16) & 0xffff, (bits >> 32) & 0xffff, (bits >> 48) & 0xffff]
+    if math.isnan(x):
+        return {"k": "nan", "s": 0, "q": 0, "m": [], "b": b}
+    if math.isinf(x):
+        return {"k": "inf", "s": 1 if x > 0 else -1, "q": 0, "m": [], "b": b}
+    if x == 0:
+        return {"k": "fin", "s": 0, "q": 0, "m": [], "b": b}
+    fr, e = math.frexp(abs(x))
+    n, e2 = int(fr * (1 << 53)), e - 53
+    q = e2 // 15
+    n <<= e2 - 15 * q
+    m = []
+    while n:
+        m.append(n & 0x7fff)
+        n >>= 15
+    while m and m[0] == 0:
+        m.pop(0)
+        q += 1
+    return {"k": "fin", "s": 1 if x > 0 else -1, "q": q, "m": m, "b": b}
